@@ -13,7 +13,7 @@ from spec import layout as L
 from spec.base import And, Or, Not, Implies, Ite, Min, Max
 from contracts.base_segment import fromfile_contract
 from contracts.seg_objects import mk_file
-from contracts.seg_decode import _instantiate_ndarray_subclass, TsArr
+from pyvc.npmodel import TsArr
 
 PALETTE = {"i2": 2, "f8": 10, "ts": 0x44, "str": 0x20}
 
@@ -219,7 +219,6 @@ def ishapes():
 
 def _setup_il(interp):
     interp.contracts_at_calls["nptdms.base_segment:fromfile"] = fromfile_contract
-    interp.models[("instantiate", np.ndarray)] = _instantiate_ndarray_subclass
 
 
 IL_VARIANTS = [("%s,%s" % ("+".join(L.TYPES[c][0] for c in cs), o), (cs, o)) for cs in ishapes() for o in "<>"]
